@@ -19,6 +19,8 @@
 (* reset when a declaration is left.  L1: Verdict(c), per container.       *)
 (* Deviations: LeakWalkState (cur survives the end of a function: a        *)
 (* package-level `var g = T{}` after the constructor is accepted),         *)
+(* BareNameCache (annotation status cached per bare type name: d.T / o.T), *)
+(* GroupDocLeaks (T's doc reaches the undocumented next spec of its group), *)
 (* PtrAliasIsValue (`var v TP` with type TP = *T reported as CTOR03),      *)
 (* PruneReported (the operands of a reported expression are not visited),  *)
 (* CtorByBareName (u's own type T with constructors NewT, MakeT exempts    *)
@@ -30,12 +32,12 @@ EXTENDS Integers, Sequences, FiniteSets, TLC, Json
 
 CONSTANTS Mode, Deviations, Emit
 
-VARIABLES prog, fi, ci, ph, cur, diags
+VARIABLES prog, fi, ci, ph, cur, diags, seenT    \* seenT: which type *named* T the walk of the package met first (only the BareNameCache deviation reads it)
 
-vars == <<prog, fi, ci, ph, cur, diags>>
+vars == <<prog, fi, ci, ph, cur, diags, seenT>>
 
 Kinds  == {"ctor1", "ctor2", "other", "pmeth", "ometh", "init", "pkgvar", "pkgdecl"}
-Stmts  == {"lit", "addrLit", "elidedVal", "elidedPtr", "elidedMap", "new", "varZero", "varPtr", "varBlank", "onU",
+Stmts  == {"lit", "addrLit", "elidedVal", "elidedPtr", "elidedMap", "new", "varZero", "varPtr", "varBlank", "onU", "litOT", "litTG",   \* litOT: a literal of o.T, an un-annotated type of another package that is also called T   \* litTG: a literal of d.TG, the undocumented spec after T in its type group
            "lit2", "new2", "varZero2", "nestNewInLit2",   \* d.T2{In: new(d.T)}: an instantiation of T inside a (reported) literal of T2
            "litRec", "newRec", "varRec"}   \* on d.Rec, an exported alias of the unexported type rec with `@constructor newRec` (iff T is annotated)   \* the same on T2, a second type of d with `@constructor NewT2` (iff T is annotated)
 Nests  == {"none", "if", "else", "for", "range", "switch", "select", "funclit", "defer", "go", "label",
@@ -54,6 +56,8 @@ Valid(c, pkg) ==
   /\ (c.kind = "pkgdecl" => c.stmt \in {"lit", "addrLit", "new", "varZero", "varPtr", "elidedVal"} /\ c.nest = "none")
   /\ (c.stmt \in {"lit2", "new2", "varZero2", "nestNewInLit2", "litRec", "newRec", "varRec"} => c.sp = "direct")
   /\ (c.stmt = "onU" => c.sp \in {"direct", "fnalias"})
+  /\ (c.stmt = "litTG" => c.sp = "direct")
+  /\ (c.stmt = "litOT" => c.sp = "direct" /\ pkg = "u")
   /\ (c.sp = "fnalias" => c.kind \in {"ctor1", "other", "init", "ometh"})
   /\ (c.sp = "paren" => c.stmt \in {"new", "varZero", "varPtr", "varBlank"})
   /\ (c.sp = "ptralias" => c.stmt = "varPtr")
@@ -86,7 +90,7 @@ UniqueCtors(fs) ==
   LET all == UNION {{<<f, i>> : i \in 1..Len(fs[f])} : f \in 1..Len(fs)}
   IN \A k \in {"ctor1", "ctor2"} : Cardinality({x \in all : fs[x[1]][x[2]].kind = k}) <= 1
 
-SeqStmts == {"lit", "new", "varZero", "varPtr", "lit2"}
+SeqStmts == {"lit", "new", "varZero", "varPtr", "lit2", "litTG", "litOT"}
 SeqAnns  == {a \in Anns : a.csp = 1 /\ ~a.imm /\ a.ctors # <<>>}
 SeqCont(pkg) == {c \in {Cont(k, s, "none", "direct") : k \in Kinds \ {"ometh", "ctor2"}, s \in SeqStmts} : Valid(c, pkg)}
 
@@ -100,7 +104,7 @@ InitProg ==
           /\ prog = [ann |-> ann, pkg |-> pkg, files |-> OneFile(Cont(k, s, n, "direct"))]
   \/ /\ Mode = "spell"
      /\ \E ann \in {a \in Anns : a.csp = 1 /\ ~a.imm}, pkg \in {"d", "u"}, k \in {"ctor1", "other", "init", "pkgvar", "pkgdecl"},
-          s \in Stmts \ {"onU"}, sp \in Spells :
+          s \in Stmts \ {"onU", "litTG", "litOT"}, sp \in Spells :
           /\ Valid(Cont(k, s, "none", sp), pkg)
           /\ prog = [ann |-> ann, pkg |-> pkg, files |-> OneFile(Cont(k, s, "none", sp))]
   \/ /\ Mode = "localalias"   \* C13: two functions declare the same local alias name for different types
@@ -117,7 +121,7 @@ InitProg ==
 
 Init == /\ InitProg
         /\ fi = 1 /\ ci = 0 /\ ph = "begin"
-        /\ cur = ""
+        /\ cur = "" /\ seenT = "none"
         /\ diags = {}
 
 Leak == "LeakWalkState" \in Deviations
@@ -129,13 +133,13 @@ BeginFile ==
   /\ ph = "begin"
   /\ cur' = ""
   /\ ci' = 1 /\ ph' = "enter"
-  /\ UNCHANGED <<prog, fi, diags>>
+  /\ UNCHANGED <<prog, fi, diags, seenT>>
 
 EnterDecl ==
   /\ ph = "enter" /\ ci <= Len(prog.files[fi])
   /\ IF CurC.kind \in {"pkgvar", "pkgdecl"} THEN UNCHANGED cur ELSE cur' = FnName(CurC)
   /\ ph' = "visit"
-  /\ UNCHANGED <<prog, fi, ci, diags>>
+  /\ UNCHANGED <<prog, fi, ci, diags, seenT>>
 
 TwinCtors == {"NewT", "MakeT"}
 Seen(c) == ~("NoUnalias" \in Deviations /\ c.sp \in {"alias", "alias3", "chain", "fnalias"})
@@ -148,15 +152,26 @@ VisitVerdict(c) ==
       twinExempt == "CtorByBareName" \in Deviations /\ prog.pkg = "u" /\ cur \in TwinCtors
       exempt == (ownPkg /\ cur \in ctorsOfType) \/ twinExempt
       \* PtrAliasIsValue: a variable whose type is an alias of a pointer type is taken for an instance
-      code2 == IF "PtrAliasIsValue" \in Deviations /\ c.stmt = "varPtr" /\ c.sp = "ptralias" THEN "CTOR03" ELSE code
+      code2 == IF "PtrAliasIsValue" \in Deviations /\ c.stmt = "varPtr" /\ c.sp = "ptralias" THEN "CTOR03"
+               ELSE IF "GroupDocLeaks" \in Deviations /\ c.stmt = "litTG" THEN "CTOR01" ELSE code
   IN IF prog.ann.ctors = <<>> \/ code2 = "none" \/ ~Seen(c) \/ exempt THEN "none" ELSE code2
 
 Visit ==
   /\ ph = "visit"
-  /\ LET v == VisitVerdict(CurC)
+  /\ LET onT == ~OnT2(CurC.stmt) /\ CurC.stmt \notin {"onU", "litTG", "litOT"} /\ CtorCode(CurC.stmt) # "none"     \* an instantiation of d.T
+         kindT == IF CurC.stmt = "litOT" THEN "plain" ELSE IF onT THEN (IF prog.ann.ctors # <<>> THEN "ann" ELSE "plain") ELSE "none"
+         first == IF seenT = "none" THEN kindT ELSE seenT
+         \* BareNameCache: "has @constructor?" is remembered per bare type name - the first type called T decides for the other
+         v0 == VisitVerdict(CurC)
+         v == IF "BareNameCache" \in Deviations /\ kindT # "none"
+                THEN (IF first = "plain" THEN "none" ELSE IF CurC.stmt = "litOT" THEN "CTOR01" ELSE v0)
+                ELSE v0
          \* the walk goes on into the operands of a reported expression (PruneReported: it does not)
          w == IF "PruneReported" \in Deviations /\ v # "none" THEN "none" ELSE VisitVerdict(Inner(CurC))
      IN diags' = diags \cup (IF v = "none" THEN {} ELSE {<<fi, ci, v>>}) \cup (IF w = "none" THEN {} ELSE {<<fi, ci, w>>})
+  /\ seenT' = (LET onT == ~OnT2(CurC.stmt) /\ CurC.stmt \notin {"onU", "litTG", "litOT"} /\ CtorCode(CurC.stmt) # "none"
+                    kindT == IF CurC.stmt = "litOT" THEN "plain" ELSE IF onT THEN (IF prog.ann.ctors # <<>> THEN "ann" ELSE "plain") ELSE "none"
+                IN IF seenT = "none" THEN kindT ELSE seenT)
   /\ ph' = "leave"
   /\ UNCHANGED <<prog, fi, ci, cur>>
 
@@ -164,12 +179,12 @@ LeaveDecl ==
   /\ ph = "leave"
   /\ IF Leak THEN UNCHANGED cur ELSE cur' = ""
   /\ IF ci < Len(prog.files[fi]) THEN ci' = ci + 1 /\ ph' = "enter" ELSE ci' = ci /\ ph' = "endfile"
-  /\ UNCHANGED <<prog, fi, diags>>
+  /\ UNCHANGED <<prog, fi, diags, seenT>>
 
 EndFile ==
   /\ ph = "endfile"
   /\ IF fi < Len(prog.files) THEN fi' = fi + 1 /\ ci' = 0 /\ ph' = "begin" ELSE fi' = fi /\ ci' = ci /\ ph' = "done"
-  /\ UNCHANGED <<prog, cur, diags>>
+  /\ UNCHANGED <<prog, cur, diags, seenT>>
 
 Finished == ph = "done" /\ UNCHANGED vars
 
